@@ -42,6 +42,11 @@ OPEN_STATEMENTS = [
     '(adjacency, disjointness, depth, coverage, order = zero-persistence at the index level) and the 2x2 element identities.',
     'gaussian_reconstruct (V W U^dagger = (0|D)) : not proved; FALSE on the real code when the left N x N block of W is '
     'singular (known finding F11, kernel-checked counterexample on the Model); open for a non-singular left block.',
+    'gaussian_emitted_structure (layers emitted by the Model of fermionic_gaussian_decomposition are sub-layers of gaussLayer, '
+    'depth <= 2N-1): proved for the schedule (gauss_schedule_*) but not lifted to the numeric loop (done for square / givens); '
+    'the structure oracle checks it on every returned decomposition.',
+    'givens_matrix_elements_sound is stated in the exact regime (entries / imaginary parts below EQ_TOLERANCE are exactly 0); '
+    'behaviour for 0 < |x| < 1e-8 is outside the theorem.',
 ]
 
 # --------------------------------------------------------------------------- exact complex numbers
@@ -256,6 +261,14 @@ def layer_indices(layers, n):
     return [[[n - 1] if isinstance(op, str) else [int(op[0]), int(op[1])] for op in layer] for layer in layers]
 
 
+def add_spec(stream, batch, case, rq, extra=None):
+    """queue a structure-oracle request; indices that are not naturals violate the statement outright"""
+    if any(i < 0 for layer in rq['layers'] for op in layer for i in op):
+        stream.violate('%s: a returned rotation has a negative index' % case['fn'], case, {'layers': rq['layers']})
+        return
+    batch.append((case, rq, extra))
+
+
 def err(x):
     x = np.asarray(x)
     return float(np.abs(x).max()) if x.size else 0.0
@@ -453,7 +466,7 @@ def check_cases(ctx, stream, cases):
         if bad:
             stream.violate('%s: %s' % (c['fn'], bad), case, {'returned': impl_summary(val)})
         for rq in specs:
-            spec_batch.append((case, rq, val))
+            add_spec(stream, spec_batch, case, rq, val)
         # ---- Model
         if isinstance(mo, dict) and mo.get('error') == 'irrational':
             stream.discards += 1
@@ -606,32 +619,31 @@ def stream_schedule(ctx):
                 model = [[[j - 1, j] for (_, j) in l] for l in sched if l]
                 rqs = [rq]
             else:
-                Q = haar_gauss(nprng, n)
+                Q = haar_gauss(nprng, m)
                 bad, val, rqs = oracle_gauss(of, Q)
                 # whether a particle-hole transformation is needed in an even layer depends on the input
                 # (parity of the Bogoliubov transformation): only the rotations are compared here
                 impl = [[[int(o[0]), int(o[1])] for o in l if not isinstance(o, str)] for l in val[0]]
                 impl = [l for l in impl if l]
-                sched = dr.one({'op': 'c11.schedule', 'kind': 'gauss', 'n': n})
+                sched = dr.one({'op': 'c11.schedule', 'kind': 'gauss', 'n': m})
                 model = [[[j, j + 1] for (_, j) in l] for l in sched if l]
         except Exception as e:
             s.violate('%s raised %s on a generic input: %s' % (fn, type(e).__name__, e), case, {})
             return
-        case['matrix'] = np.round(Q, 6).tolist()
+        case['matrix'] = [[[float(x.real), float(x.imag)] for x in r] for r in Q]
         if bad:
             s.violate('%s: %s' % (fn, bad), case, {'returned': impl_summary(val)})
         if impl != model:
             s.disagree('schedule (index pairs per layer)', case, impl, model)
         for rq in rqs:
-            spec_batch.append((case, rq))
+            add_spec(s, spec_batch, case, rq)
     for n in range(1, nmax + 1):
         one('square', n, n)
         for m in range(1, n + 1):
             one('givens', m, n)
-        if n <= budget(ctx.tier, 7, 10):
-            one('gauss', n, 2 * n)
-    answers = dr.run([r for _, r in spec_batch])
-    for (case, rq), a in zip(spec_batch, answers):
+        one('gauss', n, 2 * n)
+    answers = dr.run([r for _, r, _ in spec_batch])
+    for (case, rq, _), a in zip(spec_batch, answers):
         s.count('oracle:structure')
         if not a['ok']:
             s.violate('%s: layer structure (adjacent / disjoint / depth %d) violated at layer %d'
@@ -729,9 +741,9 @@ def stream_structured(ctx):
                'always_insert in {False, True}: Model comparison (indices exact, parameters / V / diagonals 1e-9) and '
                'reconstruction + structure oracles; distinct = distinct (function, matrix, always_insert)')
     rng = rng_for(ctx.seed, 'c11-structured')
-    nsq = budget(ctx.tier, 140, 1500)
-    ngi = budget(ctx.tier, 220, 2500)
-    nga = budget(ctx.tier, 260, 3000)
+    nsq = budget(ctx.tier, 250, 1500)
+    ngi = budget(ctx.tier, 400, 2500)
+    nga = budget(ctx.tier, 450, 3000)
     if ctx.drift:
         nsq, ngi, nga = max(nsq, 500), max(ngi, 800), max(nga, 900)
     cases = []
